@@ -1,6 +1,6 @@
 (** C16 — file names: constant inside a period (and, with the calendar of Time/CivilProofs.v, different
     for different periods). *)
-From Coq Require Import ZArith List String Ascii Lia.
+From Coq Require Import ZArith List String Ascii Lia Bool.
 From TV Require Import Time.Civil Appender.RollingModel Appender.RollingTimeProofs.
 Local Open Scope Z_scope.
 Ltac Zify.zify_post_hook ::= Z.to_euclidean_division_equations.
@@ -144,4 +144,138 @@ Proof.
   all: try (apply app_cancel_l in H; apply (app_cancel_l dot) in H).
   all: try (apply G0; [congruence|exact H]).
   all: eapply date_string_inj; eauto; congruence.
+Qed.
+
+(** * The name of a period's file is one of the appender's own log files ([matches]): what it appends to is
+      what [prune_old_logs] considers (clock readings up to 9999-12-31T23:59:59Z) *)
+Import ListNotations.
+Local Open Scope string_scope.
+
+Lemma prefix_app (p x : string) : String.prefix p (p ++ x) = true.
+Proof. induction p as [|a p IH]; simpl; [destruct x; reflexivity|]. destruct (ascii_dec a a); [exact IH|congruence]. Qed.
+Lemma prefix_refl (p : string) : String.prefix p p = true.
+Proof. rewrite <- (app_empty_r p) at 2. apply prefix_app. Qed.
+
+Lemma length_app_s (a b : string) : String.length (a ++ b) = (String.length a + String.length b)%nat.
+Proof. induction a; simpl; auto. Qed.
+Lemma substring_all (s : string) : substring 0 (String.length s) s = s.
+Proof. induction s; simpl; congruence. Qed.
+Lemma substring_skip (x s : string) : substring (String.length x) (String.length s) (x ++ s) = s.
+Proof. induction x; simpl; auto. apply substring_all. Qed.
+
+Lemma ends_with_app (s x : string) : ends_with s (x ++ s) = true.
+Proof.
+  unfold ends_with. rewrite length_app_s.
+  replace (String.length x + String.length s - String.length s)%nat with (String.length x) by lia.
+  rewrite substring_skip, String.eqb_refl, Bool.andb_true_r. apply Nat.leb_le. lia.
+Qed.
+Lemma ends_with_refl (s : string) : ends_with s s = true.
+Proof. apply (ends_with_app s ""%string). Qed.
+
+Lemma digit_cases d : 0 <= d <= 9 -> d = 0 \/ d = 1 \/ d = 2 \/ d = 3 \/ d = 4 \/ d = 5 \/ d = 6 \/ d = 7 \/ d = 8 \/ d = 9.
+Proof. lia. Qed.
+Lemma digit_facts d : 0 <= d <= 9 -> Ascii.eqb (digit d) "-"%char = false /\ is_digit (digit d) = true /\ dval (digit d) = d.
+Proof. intros H. destruct (digit_cases d H) as [->|[->|[->|[->|[->|[->|[->|[->|[->| ->]]]]]]]]]; repeat split; reflexivity. Qed.
+
+Local Arguments digit : simpl never.
+Local Arguments Z.mul : simpl never.
+Local Arguments Z.add : simpl never.
+Local Arguments Z.div : simpl never.
+Local Arguments Z.modulo : simpl never.
+
+Lemma fields_two n rest cur : 0 <= n ->
+  fields (two n ++ rest) cur = fields rest (digit (n mod 10) :: digit (n / 10 mod 10) :: cur).
+Proof.
+  intros Hn. unfold two. simpl.
+  assert (H1 : 0 <= n / 10 mod 10 <= 9) by lia. assert (H2 : 0 <= n mod 10 <= 9) by lia.
+  destruct (digit_facts _ H1) as [E1 _]. destruct (digit_facts _ H2) as [E2 _].
+  rewrite E1, E2. reflexivity.
+Qed.
+Lemma fields_dash rest cur : fields (dash ++ rest) cur = rev cur :: fields rest [].
+Proof. reflexivity. Qed.
+
+Lemma num_two a b acc : 0 <= a <= 9 -> 0 <= b <= 9 -> num [digit a; digit b] acc = Some ((acc * 10 + a) * 10 + b).
+Proof.
+  intros Ha Hb. destruct (digit_facts a Ha) as [_ [A1 A2]]. destruct (digit_facts b Hb) as [_ [B1 B2]].
+  simpl. rewrite A1, A2, B1, B2. reflexivity.
+Qed.
+Lemma num_four a b c d : 0 <= a <= 9 -> 0 <= b <= 9 -> 0 <= c <= 9 -> 0 <= d <= 9 ->
+  num [digit a; digit b; digit c; digit d] 0 = Some (((a * 10 + b) * 10 + c) * 10 + d).
+Proof.
+  intros Ha Hb Hc Hd. destruct (digit_facts a Ha) as [_ [A1 A2]]. destruct (digit_facts b Hb) as [_ [B1 B2]].
+  destruct (digit_facts c Hc) as [_ [C1 C2]]. destruct (digit_facts d Hd) as [_ [D1 D2]].
+  simpl. rewrite A1, A2, B1, B2, C1, C2, D1, D2. f_equal; try lia.
+Qed.
+
+Lemma field_ok_two n lo hi : 0 <= n < 100 -> lo <= n <= hi ->
+  field_ok 2 lo hi [digit (n / 10 mod 10); digit (n mod 10)] = true.
+Proof.
+  intros Hn Hr. unfold field_ok. rewrite num_two by lia. simpl.
+  apply andb_true_iff. split; apply Z.leb_le; lia.
+Qed.
+
+Lemma fields_ymd t tail y m d : civil_from_days (day_of t) = (y, m, d) -> 0 <= y -> 0 <= m -> 0 <= d ->
+  fields (ymd_string t ++ tail) [] =
+  match fields tail [digit (d mod 10); digit (d / 10 mod 10)] with
+  | [] => []
+  | f :: r => [digit (y / 100 / 10 mod 10); digit (y / 100 mod 10); digit (y / 10 mod 10); digit (y mod 10)]
+              :: [digit (m / 10 mod 10); digit (m mod 10)] :: f :: r
+  end.
+Proof.
+  intros E Hy Hm Hd. unfold ymd_string. rewrite E. unfold four. rewrite !app_assoc_s.
+  rewrite fields_two by lia. rewrite fields_two by lia. rewrite fields_dash. rewrite fields_two by lia.
+  rewrite fields_dash. rewrite fields_two by lia. simpl.
+  destruct (fields tail _) eqn:F; [|reflexivity].
+  exfalso. clear - F. revert F. generalize [digit (d mod 10); digit (d / 10 mod 10)].
+  induction tail; simpl; intros l F; [discriminate|]. destruct (Ascii.eqb a "-"); [discriminate|eauto].
+Qed.
+
+Lemma date_ok_ymd y m d : 0 <= y < 10000 -> 1 <= m <= 12 -> 1 <= d <= days_in_month y m -> d < 100 ->
+  field_ok 4 0 9999 [digit (y / 100 / 10 mod 10); digit (y / 100 mod 10); digit (y / 10 mod 10); digit (y mod 10)] &&
+  field_ok 2 1 12 [digit (m / 10 mod 10); digit (m mod 10)] &&
+  match num [digit (y / 100 / 10 mod 10); digit (y / 100 mod 10); digit (y / 10 mod 10); digit (y mod 10)] 0,
+        num [digit (m / 10 mod 10); digit (m mod 10)] 0 with
+  | Some yv, Some mv => field_ok 2 1 (days_in_month yv mv) [digit (d / 10 mod 10); digit (d mod 10)]
+  | _, _ => false
+  end = true.
+Proof.
+  intros Hy Hm Hd Hd2.
+  assert (EY : num [digit (y / 100 / 10 mod 10); digit (y / 100 mod 10); digit (y / 10 mod 10); digit (y mod 10)] 0 = Some y).
+  { rewrite num_four by lia. f_equal; try lia. }
+  assert (EM : num [digit (m / 10 mod 10); digit (m mod 10)] 0 = Some m).
+  { rewrite num_two by lia. f_equal; try lia. }
+  rewrite EY, EM. rewrite (field_ok_two m) by lia. rewrite (field_ok_two d) by lia.
+  unfold field_ok. rewrite EY. simpl. rewrite !andb_true_r. apply andb_true_iff. split; apply Z.leb_le; lia.
+Qed.
+
+Local Arguments num : simpl never.
+Local Arguments field_ok : simpl never.
+
+Lemma is_date_name_date_string k t : 0 <= t < TCAL -> is_date_name k (date_string k t) = true.
+Proof.
+  intros Ht. destruct (civil_from_days (day_of t)) as [[y m] d] eqn:E.
+  destruct (ymd_bounds _ _ _ _ Ht E) as [By [Bm Bd]]. destruct (civil_from_days_valid _ _ _ _ E) as [Vm Vd].
+  assert (Bh : 0 <= hour_of t < 24) by (unfold hour_of, sod; lia).
+  assert (Bmi : 0 <= minute_of t < 60) by (unfold minute_of, sod; lia).
+  pose proof (date_ok_ymd y m d By Vm Vd (proj2 Bd)) as DOK.
+  unfold is_date_name, date_string. destruct k.
+  - rewrite ?app_assoc_s. rewrite (fields_ymd t _ y m d E) by lia.
+    rewrite fields_dash. simpl rev. rewrite fields_two by lia. rewrite fields_dash. simpl rev.
+    rewrite <- (app_empty_r (two (minute_of t))). rewrite fields_two by lia. simpl.
+    rewrite DOK. rewrite (field_ok_two (hour_of t)) by lia. rewrite (field_ok_two (minute_of t)) by lia. reflexivity.
+  - rewrite ?app_assoc_s. rewrite (fields_ymd t _ y m d E) by lia.
+    rewrite fields_dash. simpl rev. rewrite <- (app_empty_r (two (hour_of t))). rewrite fields_two by lia. simpl.
+    rewrite DOK. rewrite (field_ok_two (hour_of t)) by lia. reflexivity.
+  - rewrite <- (app_empty_r (ymd_string t)). rewrite (fields_ymd t _ y m d E) by lia. simpl. exact DOK.
+  - rewrite <- (app_empty_r (ymd_string t)). rewrite (fields_ymd t _ y m d E) by lia. simpl. exact DOK.
+Qed.
+
+(** the file the appender opens for a clock reading is one of the files its pruning considers *)
+Theorem join_date_matches : forall c t, 0 <= t < TCAL -> matches c (join_date c t) = true.
+Proof.
+  intros c t Ht. unfold matches, join_date. pose proof (is_date_name_date_string (rot c) t Ht) as HD.
+  destruct (rot c) eqn:Ek; destruct (prefix c) as [p|], (suffix c) as [s|]; simpl;
+    rewrite ?prefix_app, ?prefix_refl, ?ends_with_refl; simpl; auto.
+  all: try (rewrite <- !app_assoc_s; rewrite ends_with_app; reflexivity).
+  all: try (apply ends_with_app).
 Qed.
